@@ -122,6 +122,7 @@ def _insertions(sig, k):
         yield combo, new, pos
 
 
+INT_TYPES = (("int8", 60.0, 0.0), ("int16", 15000.0, 0.0), ("int32", 1e9, 0.0), ("uint8", 60.0, 120.0), ("uint16", 15000.0, 30000.0))
 SERIES_INDEX = ("range", "reversed", "plus100", "float", "datetime", "string")
 
 
@@ -213,6 +214,19 @@ def _check_signal(sig, deep):
                             got = _run(d, a, border)
                         evals += 1
                         judge("nan-chunked", d, got, _expect(base[d], inserted_at=list(pos)), {"nan_positions": list(pos), "border": border})
+    # narrow integer sample types (raw ADC counts): the exact map a*x + b into the type's range, steps larger than half the
+    # range - first differences computed in the sample type would wrap around
+    for dt, a_, b_ in INT_TYPES:
+        arr_i = (a_ * arr + b_).astype(dt)
+        for d in (DETS if b_ == 0 else DETS[:2]):
+            try:
+                got = _run(d, arr_i)
+            except Raised as r:
+                viol.append(("C03/integer-samples/%s/raises-%s" % (d, r.args[1]), {"dtype": dt, "error": r.args[2]}))
+                evals += 1
+                continue
+            evals += 1
+            judge("integer-samples", d, got, _expect(base[d], fval=lambda v: a_ * v + b_), {"dtype": dt, "a": a_, "b": b_})
     # Series of every index type
     for kind in SERIES_INDEX:
         s = _series(sig, kind)
